@@ -113,6 +113,15 @@ where
         }
     }
 
+    /// Wake every task that is waiting for a stream id, so that it observes the connection error.
+    fn on_conn_error(&mut self) {
+        for wakers in self.wakers.iter_mut() {
+            for waker in wakers.drain(..) {
+                waker.wake();
+            }
+        }
+    }
+
     pub fn revise_max_streams(
         &mut self,
         zero_rtt_rejected: bool,
@@ -207,6 +216,12 @@ where
     /// but it is very very hard to happen.
     pub fn poll_alloc_sid(&self, cx: &mut Context<'_>, dir: Dir) -> Poll<Option<StreamId>> {
         self.0.lock().unwrap().poll_alloc_sid(cx, dir)
+    }
+
+    /// Called when the connection is closed or failed: no stream id will ever be granted again,
+    /// wake the tasks blocked in [`Self::poll_alloc_sid`] so that they do not sleep forever.
+    pub fn on_conn_error(&self) {
+        self.0.lock().unwrap().on_conn_error();
     }
 
     pub fn revise_max_streams(
